@@ -3,8 +3,9 @@
    manual defines, never wraps and terminates within the implied count.
    All statements are for ALL int64 start/limit/step (step <> 0); induction is
    on the fuel with the start value generalised — nothing is computed. *)
-From Coq Require Import ZArith Lia Bool List.
-From GV Require Import Base.W64 Base.W64Lemmas Base.F64 Num.Model Num.Spec Num.Ops Num.ForLoop.
+From Coq Require Import ZArith Lia Bool List Reals Lra.
+From Flocq Require Import Core.Core IEEE754.BinarySingleNaN.
+From GV Require Import Base.W64 Base.W64Lemmas Base.F64 Base.F64Lemmas Num.Model Num.Spec Num.Ops Num.ForLoop.
 Import ListNotations.
 Open Scope Z_scope.
 
@@ -126,7 +127,7 @@ Proof. unfold take_count. rewrite Z2Nat.inj_min, Nat2Z.id. reflexivity. Qed.
 Theorem int_loop_sequence fuel s l st : in64 s -> in64 l -> in64 st -> st <> 0 ->
   for_im fuel (NInt s) (NInt l) (NInt st) = for_s fuel (NInt s) (NInt l) (NInt st).
 Proof.
-  intros Hs Hl Hst NZ. unfold for_im, for_s, prepfor. cbn [isZero isPositive num_lt s_forlimit]. rewrite take_count_min.
+  intros Hs Hl Hst NZ. unfold for_im, for_s, prepfor. cbn [isZero isPositive num_lt s_forlimit forLimit]. rewrite take_count_min.
   destruct (Z.eqb_spec st 0); [contradiction|].
   destruct (Z.ltb_spec 0 st) as [P|N].
   - destruct (Z.ltb_spec l s) as [Sk|Run].
@@ -200,7 +201,7 @@ Theorem zero_step_error fuel start limit :
   for_im fuel start limit (NInt 0) = FErrZero /\ for_im fuel start limit (NFlt (fzero false)) = FErrZero /\
   for_im fuel start limit (NFlt (fzero true)) = FErrZero.
 Proof.
-  unfold for_im, prepfor. repeat split; destruct start; reflexivity.
+  unfold for_im, prepfor. repeat split; reflexivity.
 Qed.
 
 Example int_loop_hyps_sat : in64 1 /\ in64 10 /\ in64 3 /\ 3 <> 0 /\ s_count 1 10 3 = 4.
@@ -210,3 +211,91 @@ Proof. repeat split; unfold in64; try lia. Qed.
 Example loop_to_maxint :
   for_im 5 (NInt (maxint - 1)) (NInt maxint) (NInt 1) = FRun [NInt (maxint - 1); NInt maxint] true.
 Proof. vm_compute. reflexivity. Qed.
+
+(* --- float loops -------------------------------------------------------------- *)
+(* A float loop (start or step is a float) is, by definition on both sides, iterated IEEE addition
+   while the value is <= the limit (>= for a non-positive step); stated for every fuel and all operands,
+   NaN and infinities included. *)
+Lemma run_loop_float fuel : forall x l st,
+  run_loop fuel (NFlt x) (NFlt l) (NFlt st) = s_float_loop fuel x l st.
+Proof.
+  induction fuel as [|k IH]; intros x l st; [reflexivity|].
+  cbn [run_loop s_float_loop]. unfold advfor. cbn [add isPositive tofloat].
+  destruct (flt fzero0 st).
+  - destruct (fle (fadd x st) l); cbn [negb].
+    + rewrite IH. destruct (s_float_loop k (fadd x st) l st). reflexivity.
+    + reflexivity.
+  - destruct (fle l (fadd x st)); cbn [negb].
+    + rewrite IH. destruct (s_float_loop k (fadd x st) l st). reflexivity.
+    + reflexivity.
+Qed.
+
+Definition is_float_loop (start step : num) : bool :=
+  match start, step with NInt _, NInt _ => false | _, _ => true end.
+
+(* float64(n) == 0 iff n == 0 *)
+Lemma of_int_zero_iff n : in64 n -> feq (of_int n) fzero0 = (n =? 0).
+Proof.
+  intros Hn. destruct (Z.eqb_spec n 0) as [->|NZ]; [reflexivity|].
+  apply feq_finite_false; [now apply of_int_finite|reflexivity|].
+  cbn [fzero0 fzero B2R].
+  destruct (Z_lt_le_dec n 0).
+  - assert (B2R (of_int n) <= IZR (-1))%R.
+    { apply of_int_le_bound. now apply in64_abs. apply small_int_format. cbn; lia. apply IZR_le. lia. }
+    lra.
+  - assert (IZR 1 <= B2R (of_int n))%R.
+    { apply of_int_ge_bound. now apply in64_abs. apply small_int_format. cbn; lia. apply IZR_le. lia. }
+    lra.
+Qed.
+
+Theorem float_loop_definition fuel start limit step : match step with NInt n => in64 n | NFlt _ => True end -> is_float_loop start step = true ->
+  for_im fuel start limit step = for_s fuel start limit step.
+Proof.
+  intros W FL. unfold for_im, for_s, prepfor.
+  destruct start as [a|x], step as [n|st]; try discriminate; cbn [isZero tofloat].
+  - destruct (feq st fzero0); [reflexivity|].
+    destruct (flt fzero0 st).
+    + destruct (fle (of_int a) (tofloat limit)); cbn [negb]; [|reflexivity]. now rewrite run_loop_float.
+    + destruct (fle (tofloat limit) (of_int a)); cbn [negb]; [|reflexivity]. now rewrite run_loop_float.
+  - rewrite (of_int_zero_iff n W). destruct (n =? 0); [reflexivity|].
+    destruct (flt fzero0 (of_int n)).
+    + destruct (fle x (tofloat limit)); cbn [negb]; [|reflexivity]. now rewrite run_loop_float.
+    + destruct (fle (tofloat limit) x); cbn [negb]; [|reflexivity]. now rewrite run_loop_float.
+  - destruct (feq st fzero0); [reflexivity|].
+    destruct (flt fzero0 st).
+    + destruct (fle x (tofloat limit)); cbn [negb]; [|reflexivity]. now rewrite run_loop_float.
+    + destruct (fle (tofloat limit) x); cbn [negb]; [|reflexivity]. now rewrite run_loop_float.
+Qed.
+
+(* a NaN limit, start or step: no iteration, or (NaN step) at most the first one — the loop stops *)
+Theorem nan_limit_float_loop_skips fuel start limit step : match step with NInt n => in64 n | NFlt _ => True end -> is_float_loop start step = true ->
+  (limit = NFlt fnan -> for_im fuel start limit step = FRun [] true \/ for_im fuel start limit step = FErrZero).
+Proof.
+  intros W FL ->. rewrite float_loop_definition by assumption. unfold for_s.
+  destruct start as [a|x], step as [n|st]; try discriminate; cbn [tofloat].
+  - destruct (feq st fzero0); [now right|left].
+    assert (forall y, fle y fnan = false) by (intros y; unfold fle, Bleb, fnan; destruct y; reflexivity).
+    assert (forall y, fle fnan y = false) by (intros y; reflexivity).
+    destruct (flt fzero0 st); rewrite ?H, ?H0; reflexivity.
+  - destruct (feq (of_int n) fzero0); [now right|left].
+    assert (forall y, fle y fnan = false) by (intros y; unfold fle, Bleb, fnan; destruct y; reflexivity).
+    destruct (flt fzero0 (of_int n)); rewrite ?H; reflexivity.
+  - destruct (feq st fzero0); [now right|left].
+    assert (forall y, fle y fnan = false) by (intros y; unfold fle, Bleb, fnan; destruct y; reflexivity).
+    destruct (flt fzero0 st); rewrite ?H; reflexivity.
+Qed.
+
+(* --- operands that are not numbers ------------------------------------------------ *)
+Theorem non_number_error fuel start limit step :
+  (fv_num start = None -> for_im_val fuel start limit step = FVErrInit) /\
+  (fv_num start <> None -> fv_num limit = None -> for_im_val fuel start limit step = FVErrLimit) /\
+  (fv_num start <> None -> fv_num limit <> None -> fv_num step = None -> for_im_val fuel start limit step = FVErrStep) /\
+  (forall a b c, fv_num start = Some a -> fv_num limit = Some b -> fv_num step = Some c ->
+     for_im_val fuel start limit step = FVRes (for_im fuel a b c)).
+Proof.
+  unfold for_im_val. repeat split.
+  - intros ->. reflexivity.
+  - intros A ->. destruct (fv_num start); [reflexivity|contradiction].
+  - intros A B ->. destruct (fv_num start); [|contradiction]. destruct (fv_num limit); [reflexivity|contradiction].
+  - intros a b c -> -> ->. reflexivity.
+Qed.
